@@ -348,6 +348,20 @@ impl RealState {
                     Err(e) => (format!("err {}", err_kind(&e)), None),
                 }
             }
+            ["ar.add_copy", src, p, e] => {
+                // the node argument is a COPY of a node of the tree itself (`tree.get(&src)?.clone()`, public API only): it
+                // arrives with that node's links (parent, children, child edges, depth, caches); what is added must be a fresh
+                // child carrying the copy's payload (name, comment) below `p`
+                let (Ok(src), Ok(p), Some(e)) = (src.parse::<usize>(), p.parse::<usize>(), opt_len(e)) else { return bad };
+                let node = match self.tree.get(&src) {
+                    Ok(n) => n.clone(),
+                    Err(e) => return (format!("err {}", err_kind(&e)), None),
+                };
+                match self.tree.add_child(node, p, e) {
+                    Ok(id) => (format!("ok {id}"), None),
+                    Err(e) => (format!("err {}", err_kind(&e)), None),
+                }
+            }
             ["ar.setname", x, name] => {
                 // in-place edit of a node's name through the public mutable accessor (no cache is told about it)
                 let Ok(x) = x.parse::<usize>() else { return bad };
